@@ -213,9 +213,14 @@ def runs(repo, name):
     else:
         ff.data["ascon_backend_free"] = "not defined in this variant (ASCON_BACKEND_FREE is not set for the windowed ABI)"
     ff.write()
+    bf = ff.data["ascon_backend_free"]
+    free_err = (bf.get("error") or ("ascon_backend_free accesses memory" if bf.get("memory_accesses") else None)) if isinstance(bf, dict) else None
 
     def one(k):
         t0 = time.time()
+        if free_err:
+            ff.fail(k, "ascon_backend_free: " + free_err)
+            raise Stuck("ascon_backend_free in the same file: " + free_err)
         make = make_for("ascon_permute", {"a2": ("ptr", "state", 0), "a3": ("int", k)})
         try:
             probe = make("trace", None, ())
